@@ -13,12 +13,26 @@ package gremfam
 // No patch applied: the requirements scalibr reads from the file are the original ones (and
 // package.json is byte-identical).
 //
-// Explicit list: run 1 reports every vulnerability the patch introduces, a fresh analysis only
-// looks at listed ids; the statement does not say which is right, so the comparison is
-// restricted to listed ids and the other situation is counted (explicit_unlisted_introduced).
+// Explicit list (options.RemediationOptions.ExplicitVulns: "If set, only consider these
+// vulnerability IDs & ignore all others"; remediation.ResolveGraphVulns compares the record's
+// ID, not its aliases). Reference model: with a non-empty list E an analysis considers a
+// vulnerability only when its ID is in E (and the other options let it pass), in the first
+// analysis and in every re-analysis of a patched graph alike. The equation above is therefore
+// decided unchanged, and neither run may report an id outside E. One situation is a recorded
+// finding (class c12.explicit_new_unlisted_reported_introduced, honoured here in the oracle
+// because it cannot be decided before running the strategy): the patch brings a vulnerability
+// into the graph that was in no node of the original graph (reference evaluator over the
+// original resolved graph) and is not listed; run 1 reports it as introduced, a fresh analysis
+// ignores it. An unlisted id that WAS in the original graph and is reported as introduced is
+// never excused.
+//
+// Aliased duplicates (npm): a share of the package.json files requires one registry package
+// twice in one section under different keys ("lib": "1.0.0" next to
+// "lib-legacy": "npm:lib@0.9.0", or two aliases). Nothing in the oracle is special for them.
 
 import (
 	"bytes"
+	"context"
 	"fmt"
 	"os"
 	"path/filepath"
@@ -41,7 +55,16 @@ type c12Case struct {
 	Opts        remOpts `json:"options"`
 	MaxUpgrades int     `json:"max_upgrades"`
 	NoIntroduce bool    `json:"no_introduce,omitempty"`
+	// Strict disables the oracle-side known-finding class (set in witness files so that the
+	// witness keeps failing while the class is listed).
+	Strict bool `json:"strict,omitempty"`
 }
+
+// clsExplicitNewUnlisted: ExplicitVulns is implemented by adding the unlisted ids found in the
+// ORIGINAL graph to IgnoreVulns, so an unlisted vulnerability that first appears in a patched
+// graph is not ignored: the patch is reported as introducing it (and dropped under
+// NoIntroduce), while a fresh analysis of the written manifest ignores it.
+const clsExplicitNewUnlisted = "c12.explicit_new_unlisted_reported_introduced"
 
 func genC12(driver string, col *ev.Collector) func(*rapid.T) c12Case {
 	c11Known := ev.New("C11") // only consulted for classes that keep FixVulns from terminating
@@ -49,6 +72,12 @@ func genC12(driver string, col *ev.Collector) func(*rapid.T) c12Case {
 		cfg := universe.DefaultConfig(driverSystem(driver))
 		cfg.UnknownReqs = driver != drvMavenOverride
 		cfg.DottedNames = os.Getenv("VERIF_GREM_DOTTED") != "" // off by default: package.json writer finding of C13
+		cfg.AliasDuplicates = 30                                // npm: share of manifests with an aliased duplicate requirement
+		explicit := pct(t, "explicit?") < 35
+		if explicit {
+			// an explicit list is a proper subset of the advisories: have enough of them
+			cfg.MinVulns, cfg.MaxVulns = 2, 6
+		}
 		c := c12Case{Driver: driver, Scenario: universe.GenScenario(t, cfg), MaxUpgrades: 1}
 		if directVsRange(c.Scenario) && c11Known.IsKnown("c11."+clsDirectVsRange) {
 			// FixVulns does not terminate on these (finding of C11); nothing to compare
@@ -88,8 +117,28 @@ func genC12(driver string, col *ev.Collector) func(*rapid.T) c12Case {
 		if pct(t, "ignore?") < 25 {
 			o.IgnoreVulns = pickIDs("ignore", universe.IntIn(t, 1, 2, "nignore"), true)
 		}
-		if pct(t, "explicit?") < 15 {
-			o.ExplicitVulns = pickIDs("explicit", universe.IntIn(t, 1, 3, "nexplicit"), false)
+		if explicit {
+			// a non-empty subset of the advisory ids that leaves at least one advisory out
+			// (when there are two or more)
+			var in []bool
+			n := 0
+			for i := range c.Vulns {
+				b := pct(t, fmt.Sprintf("explicit%d", i)) < 45
+				in = append(in, b)
+				if b {
+					n++
+				}
+			}
+			if n == 0 {
+				in[universe.IntIn(t, 0, len(in)-1, "explicit.force")] = true
+			} else if n == len(in) && n > 1 {
+				in[universe.IntIn(t, 0, len(in)-1, "explicit.drop")] = false
+			}
+			for i, v := range c.Vulns {
+				if in[i] {
+					o.ExplicitVulns = append(o.ExplicitVulns, v.ID)
+				}
+			}
 		}
 		c.Opts = o
 		c.NoIntroduce = pct(t, "no_introduce") < 25
@@ -162,6 +211,22 @@ func propC12(c c12Case) (ev.Outcome, error) {
 	if c.NoIntroduce {
 		cls["opt_no_introduce"] = true
 	}
+	dupPkg := c.Manifest.DuplicatedPackage()
+	if dupPkg != "" {
+		cls["alias_duplicate"] = true
+		plain := false
+		for _, d := range c.Manifest.Deps {
+			plain = plain || (d.Name == dupPkg && d.Alias == "")
+		}
+		if !plain {
+			cls["alias_duplicate_two_aliases"] = true
+		}
+	}
+	listed := map[string]bool{}
+	for _, id := range c.Opts.ExplicitVulns {
+		listed[id] = true
+	}
+	explicit := len(listed) > 0
 
 	var res1 result.Result
 	var err1 error
@@ -176,6 +241,13 @@ func propC12(c c12Case) (ev.Outcome, error) {
 	}
 	if len(res1.Vulnerabilities) > 0 {
 		cls["vulns_found"] = true
+	}
+	if explicit {
+		for _, v := range res1.Vulnerabilities {
+			if !listed[v.ID] {
+				return out(true), fmt.Errorf("analysis with explicit list %v reports unlisted %s", c.Opts.ExplicitVulns, v.ID)
+			}
+		}
 	}
 	switch len(res1.Patches) {
 	case 0:
@@ -250,20 +322,76 @@ func propC12(c c12Case) (ev.Outcome, error) {
 		want[in.ID] = true
 	}
 	got := idSet(res2.Vulnerabilities)
-	if len(c.Opts.ExplicitVulns) > 0 {
-		listed := map[string]bool{}
-		for _, id := range c.Opts.ExplicitVulns {
-			listed[id] = true
-		}
-		for id := range want {
-			if !listed[id] {
-				delete(want, id)
-				cls["explicit_unlisted_introduced"] = true
+	if dupPkg != "" {
+		cls["alias_duplicate_patch_applied"] = true
+		n := 0
+		for _, u := range p.PackageUpdates {
+			if u.Name == dupPkg {
+				n++
 			}
 		}
-		for id := range got {
+		if n > 0 {
+			cls["alias_duplicate_patched"] = true
+		}
+		if n == 1 {
+			// one of the duplicate requirements was changed; is the package still vulnerable
+			// (through the other requirement, or still through this one)?
+			for _, v := range res2.Vulnerabilities {
+				for _, pk := range v.Packages {
+					if pk.Name == dupPkg {
+						cls["alias_duplicate_one_patched_package_still_vulnerable"] = true
+					}
+				}
+			}
+		}
+	}
+	var inOriginal map[string]bool // reference model: ids present in the original graph, unfiltered
+	if explicit {
+		g0, err := w.Resolve(context.Background(), path0, options.ResolutionOptions{MavenManagement: c.Opts.MavenManagement})
+		if err != nil {
+			return out(false), fmt.Errorf("harness: original manifest does not resolve: %v", err)
+		}
+		inOriginal = universe.GraphVulnIDs(g0, c.Vulns, c.Universe.System)
+		for _, id := range sortedKeys(got) {
 			if !listed[id] {
 				return out(true), fmt.Errorf("re-analysis with explicit list %v reports unlisted %s", c.Opts.ExplicitVulns, id)
+			}
+		}
+		for _, id := range sortedKeys(want) {
+			if listed[id] {
+				continue
+			}
+			// only an id reported as introduced can get here (run 1's ids are all listed)
+			if inOriginal[id] {
+				cls["explicit_unlisted_original_reported_introduced"] = true
+				continue // decided by the equation below: a violation
+			}
+			cls["explicit_new_unlisted_introduced"] = true
+			if col := ev.Get("C12"); !c.Strict && col.IsKnown(clsExplicitNewUnlisted) {
+				col.Excluded(clsExplicitNewUnlisted)
+				delete(want, id)
+			}
+		}
+		// class counter (not part of the verdict): does an unlisted vulnerability that would
+		// otherwise be considered sit in the graph before and after the patch? Counted with an
+		// analysis of a copy of the written manifest under the same options minus the list.
+		if path3, err := copyFile(path1, filepath.Join(w.Dir, "run3")); err == nil {
+			o3 := c.Opts
+			o3.ExplicitVulns = nil
+			var res3 result.Result
+			var err3 error
+			done := guarded(func() {
+				res3, err3 = guidedremediation.FixVulns(options.FixVulnsOptions{
+					Manifest: path3, Strategy: c.Strategy(), MaxUpgrades: c.MaxUpgrades, NoIntroduce: c.NoIntroduce,
+					MatcherClient: w.Matcher, ResolveClient: w.Client, RemediationOptions: o3.build(c.Levels),
+				})
+			})
+			if done && err3 == nil {
+				for _, v := range res3.Vulnerabilities {
+					if !listed[v.ID] && inOriginal[v.ID] {
+						cls["explicit_other_vuln_survives_patch"] = true
+					}
+				}
 			}
 		}
 	}
